@@ -31,7 +31,9 @@ def under_case(draw):
     opt = kind
     if kind == "number":
         # total intensity request: inside, below or above the achievable range
-        opt = float(draw(st.floats(0.0, 1.3)) * float(np.sum(sv.ub)))
+        # (a request of exactly zero - "as dim as possible, measured by the total" - as float or int is a number like any other)
+        opt = draw(st.one_of(st.floats(0.0, 1.3).map(lambda f: float(f * float(np.sum(sv.ub)))), st.floats(0.0, 1.3).map(lambda f: float(f * float(np.sum(sv.ub)))),
+                             st.floats(0.0, 1.3).map(lambda f: float(f * float(np.sum(sv.ub)))), st.sampled_from([0.0, 0])))
     elif kind == "vector":
         opt = (sv.lb + np.asarray(draw(gens.array((sv.n,), -0.2, 1.2, styles=("raw",)))) * (sv.ub - sv.lb)).tolist()
         if draw(st.integers(0, 2)) == 0 and rows[0].get("x") is not None:
